@@ -6,7 +6,7 @@ set -u
 patch=$(readlink -f "$1" 2>/dev/null || echo "$1"); [ "$1" = "-" ] && patch="-"; id=$2; seed=${3:-1}; tier=${4:-quick}
 export GOFLAGS=-mod=mod GOPROXY=off
 # disk guard: builds against scratch worktrees fill the go build cache (one set of objects per path)
-if [ "$(df --output=avail -BG / | tail -1 | tr -dc 0-9)" -lt 40 ]; then go clean -cache >/dev/null 2>&1; fi
+if [ "$(df --output=avail -BG / | tail -1 | tr -dc 0-9)" -lt 25 ]; then go clean -cache >/dev/null 2>&1; fi
 # one fixed scratch worktree (stable path = go build cache hits), serialised by a lock
 wt=${MUTWT:-/tmp/mutwt}
 exec 9>$wt.lock; flock 9
